@@ -5,6 +5,8 @@ import (
 
 	rt "github.com/arnodel/golua/runtime"
 	"pgregory.net/rapid"
+
+	"verif/internal/ev"
 )
 
 // FuzzCompile is the native fuzz target for manual campaigns (./check cannot
@@ -31,8 +33,8 @@ func FuzzCompile(f *testing.F) {
 		if len(src) > 100_000 || rt.HasMarshalPrefix(src) {
 			t.Skip()
 		}
-		if kfSourceFormat(src) {
-			t.Skip() // open findings C04-format-*
+		if sourceExcluded(ev.Open, src) != "" {
+			t.Skip() // input classes of the open findings
 		}
 		if o := execSource(src); o.Class == "panic" {
 			t.Fatalf("Go panic reached the host: %s", o.Msg)
@@ -45,7 +47,7 @@ func FuzzCompile(f *testing.F) {
 func FuzzCompileStructured(f *testing.F) {
 	f.Fuzz(rapid.MakeFuzz(func(t *rapid.T) {
 		c := genSource(t)
-		if kfSourceFormat(c.Src) {
+		if sourceExcluded(ev.Open, c.Src) != "" {
 			return
 		}
 		if o := execSource(c.Src); o.Class == "panic" {
